@@ -60,11 +60,39 @@ Definition covered_with_reason : list (site * string) := [
    "process-local cache keyed by the FULL content: key = code hash, value = the code with that hash read from the node store; a hit returns what the store would return");
   (S "src/storage/account/accountdatasource.go" "storageDB.ContractCode" "singleton-write" "account.storageDB : call db.codeSizeCache.Add",
    "process-local cache keyed by the FULL content: key = code hash, value = length of the code with that hash");
+  (S "src/storage/account/accountdb_eth.go" "AccountDB.GetERC20Binding" "process-global-read" "account.rpgContractAddress",
+   "read side of the write-once cache of the native token binding (see the global-write site): zero until loaded from the state, then the genesis value");
+  (S "src/storage/account/accountdb_eth.go" "AccountDB.loadContractCache" "process-global-read" "account.rpgContractAddress",
+   "the left side of the cache assignment (the scanner counts every mention of the variable)");
   (S "src/storage/account/accountdb_eth.go" "AccountDB.loadContractCache" "global-write" "account.rpgContractAddress via rpgContractAddress",
    "write-once cache of the native token binding, a value fixed at genesis (AddERC20Binding refuses to overwrite an existing binding)")
 ].
 
 Definition covered : list site := map fst covered_with_reason.
-Definition uncovered (inv : list site) : list site := uncovered_in covered inv.
+
+(* process-global-read sites are classified by rule, not one by one:
+   - network configuration and proposal gates (common.IsProposalNNN, IsSub, IsMainnet, reward/refund/epoch
+     block counts, chain id): ASSUMED equal on the replicas that execute the same block. The gates read the
+     node's own head height (common.GetBlockHeight), which equals header.Height-1 when a block is verified
+     on top of the chain; that it is the head and not the block's height is KNOWN FINDING
+     C01/process-global:proposal-gate-reads-head, quantified on every run (activation height moved between
+     block and head, one gate at a time). A DIRECT read of the head height (common.GetBlockHeight) is not
+     in this class: it is a new site.
+   - package-level variables that no function reachable from block execution assigns (no global-write site
+     for them in the same inventory): initialised once, constants in all but the keyword. *)
+Definition gate_names : list string :=
+  ["common.IsSub"; "common.IsMainnet"; "common.IsRobin"; "common.IsDEV"; "common.IsFullNode"; "common.GetRewardBlocks";
+   "common.GetRefundBlocks"; "common.GetBlocksPerEpoch"; "common.GetChainId"; "common.ChainId"; "common.NetworkId"; "common.MainNodeContract"].
+Definition is_gate (d : string) : bool :=
+  prefix "common.IsProposal" d || existsb (String.eqb d) gate_names.
+Definition is_reader_call (d : string) : bool := is_gate d || String.eqb d "common.GetBlockHeight".
+Definition written_in (inv : list site) (d : string) : bool :=
+  existsb (fun w => String.eqb (s_kind w) "global-write" && prefix (d ++ " via ") (s_detail w)) inv.
+Definition rule_covered (inv : list site) (s : site) : bool :=
+  String.eqb (s_kind s) "process-global-read" &&
+  (is_gate (s_detail s) || (negb (is_reader_call (s_detail s)) && negb (written_in inv (s_detail s)))).
+
+Definition uncovered (inv : list site) : list site :=
+  filter (fun s => negb (mem s covered || rule_covered inv s)) inv.
 (* table entries that no longer correspond to a site (stale reasons) *)
 Definition stale (inv : list site) : list site := uncovered_in inv covered.
